@@ -161,9 +161,28 @@ def _refactor_variants(prop, repo):
     return out
 
 
+def _mass_variants(prop, repo):
+    """Mechanical, behaviour-preserving rewrites of the *whole* package (tools/mass_rewrite.py): every `if/else` inverted,
+    every comparison flipped, trailing `if` blocks turned into guard clauses, every local variable renamed, positional
+    arguments of same-module calls turned into keywords.  No check may depend on such spellings."""
+    out = []
+    try:
+        sys.path.insert(0, os.path.join(HERE, "tools"))
+        import mass_rewrite
+    except Exception:
+        return out
+    for t in mass_rewrite.TRANSFORMS:
+        try:
+            ov = mass_rewrite.rewrite_tree(repo, [t])
+        except Exception:
+            ov = None
+        out.append(dict(prop=prop, id="mass/" + t, overrides=ov, expect="HOLDS"))
+    return out
+
+
 def run_for_property(prop, repo="/repo", seed=0, jobs=None):
     from selftest.variants import VARIANTS
-    vs = [v for v in VARIANTS if v["prop"] == prop] + _seeded_variants(prop, repo) + _refactor_variants(prop, repo)
+    vs = [v for v in VARIANTS if v["prop"] == prop] + _seeded_variants(prop, repo) + _refactor_variants(prop, repo) + _mass_variants(prop, repo)
     if seed:
         import random
         random.Random(seed).shuffle(vs)
